@@ -179,6 +179,11 @@ func (b *assignmentBuilder) structFieldAndStructGettersAndFields(lhs bmodel.Node
 		if m, ok := rhs.(bmodel.StructMethodNode); ok && !isCallableOn(rhsStruct, m.Method()) {
 			return
 		}
+		if util.IsInvalidType(lhs.ExprType()) || util.IsInvalidType(rhs.ExprType()) {
+			// A type that did not resolve (e.g. one declared in a file the convergen build tag
+			// excludes) is "assignable" to and from everything as far as go/types is concerned.
+			return
+		}
 
 		if util.IsSliceType(lhs.ExprType()) && util.IsSliceType(rhs.ExprType()) {
 			a, err = b.sliceToSlice(lhs, rhs)
